@@ -1729,3 +1729,79 @@ package sarama
 //@   loop partitions: invariant[brokers_address_current] forall id int32 :: haskey(client.brokers, id) ==> exists k :: 0 <= k && k < len(data.Brokers) && data.Brokers[k].id == id && client.brokers[id] != nil && client.brokers[id].addr == data.Brokers[k].addr
 //@   loop partitions: invariant[brokers_absent_dropped] forall id int32 :: haskey(client.brokers, id) ==> exists k :: 0 <= k && k < len(data.Brokers) && data.Brokers[k].id == id
 // END generated: client.updateMetadata
+
+// ---------------------------------------------------------------------------------------------
+// balance_strategy.go (C08 valid assignments, C13 balance)
+
+// Add appends the partitions to the member's list for the topic (creating the member's entry on first use).
+//@ func (p BalanceStrategyPlan) Add(memberID, topic, partitions) props C08
+//@   requires p != nil
+// (a plan is only ever filled through Add, so a member that is present has a topic map)
+//@   requires forall m string :: haskey(p, m) ==> p[m] != nil
+//@   ensures[members_keep_maps] forall m string :: haskey(p, m) ==> p[m] != nil
+//@   ensures[existing_topic_map_kept] old(haskey(p, memberID)) ==> p[memberID] == old(p[memberID])
+//@   ensures[new_topic_map_is_fresh] len(partitions) > 0 && !old(haskey(p, memberID)) ==> fresh(p[memberID])
+//@   ensures[other_members_untouched] forall m string :: m != memberID ==> haskey(p, m) == old(haskey(p, m)) && p[m] == old(p[m])
+// frame: the plan itself and the member's topic map (a map created here is fresh, hence outside any frame)
+//@   modifies map:p, map:p[memberID]
+//@   ensures[noop_on_empty] len(partitions) == 0 ==> haskey(p, memberID) == old(haskey(p, memberID))
+//@   ensures[appended] len(partitions) > 0 ==> haskey(p, memberID) && p[memberID] != nil && len(p[memberID][topic]) == old(ite(haskey(p, memberID), len(p[memberID][topic]), 0)) + len(partitions)
+//@   ensures[suffix_is_the_partitions] len(partitions) > 0 ==> forall k :: 0 <= k && k < len(partitions) ==> p[memberID][topic][len(p[memberID][topic]) - len(partitions) + k] == partitions[k]
+//@   ensures[prefix_kept] len(partitions) > 0 && old(haskey(p, memberID)) ==> forall k :: 0 <= k && k < old(len(p[memberID][topic])) ==> p[memberID][topic][k] == old(p[memberID][topic][k])
+
+//@ ghost field roundRobinBalancer.adds int
+
+// a member is subscribed to a topic iff the topic is in its set
+//@ func (m *memberAndTopic) hasTopic(topic) pure
+
+// Round-robin: one pass over the topic-partitions; each one is handed, exactly once, to a member that is a member
+// of the group and is subscribed to the partition's topic.
+// Precondition (established by consumerGroup.balance, which builds `topics` from the members' subscriptions):
+// every topic passed in has at least one subscriber - otherwise the search for a subscriber would not terminate.
+//@ func (b *roundRobinBalancer) Plan(memberAndMetadata, topics) props C08 C13
+//@   returns plan, err
+//@   per_return
+//@   requires memberAndMetadata != nil && topics != nil
+//@   loopname pairs: range topicPartitions
+//@   loopname alltopics: range topics
+//@   loopname partitionlist: range partitions
+//@   loop alltopics: invariant[only_existing] forall k :: 0 <= k && k < len(topicPartitions) ==> haskey(topics, topicPartitions[k].topic) && exists j :: 0 <= j && j < len(topics[topicPartitions[k].topic]) && topics[topicPartitions[k].topic][j] == topicPartitions[k].partition
+//@   loop alltopics: invariant[all_listed] forall t string, j int :: $visited[t] && 0 <= j && j < len(topics[t]) ==> exists k :: 0 <= k && k < len(topicPartitions) && topicPartitions[k].topic == t && topicPartitions[k].partition == topics[t][j]
+//@   loop alltopics: invariant[visited_are_topics] forall t string :: $visited[t] ==> haskey(topics, t)
+//@   loop partitionlist: invariant haskey(topics, topic) && partitions == topics[topic] && $visited_alltopics[topic]
+//@   loop partitionlist: invariant[only_existing] forall k :: 0 <= k && k < len(topicPartitions) ==> haskey(topics, topicPartitions[k].topic) && exists j :: 0 <= j && j < len(topics[topicPartitions[k].topic]) && topics[topicPartitions[k].topic][j] == topicPartitions[k].partition
+//@   loop partitionlist: invariant[all_listed] forall t string, j int :: $visited_alltopics[t] && t != topic && 0 <= j && j < len(topics[t]) ==> exists k :: 0 <= k && k < len(topicPartitions) && topicPartitions[k].topic == t && topicPartitions[k].partition == topics[t][j]
+//@   loop partitionlist: invariant[current_listed] forall j :: 0 <= j && j < $i ==> exists k :: 0 <= k && k < len(topicPartitions) && topicPartitions[k].topic == topic && topicPartitions[k].partition == partitions[j]
+//@   loop groupmembers: invariant[only_existing] forall k :: 0 <= k && k < len(topicPartitions) ==> haskey(topics, topicPartitions[k].topic) && exists j :: 0 <= j && j < len(topics[topicPartitions[k].topic]) && topics[topicPartitions[k].topic][j] == topicPartitions[k].partition
+//@   loop subscriptions: invariant[only_existing] forall k :: 0 <= k && k < len(topicPartitions) ==> haskey(topics, topicPartitions[k].topic) && exists j :: 0 <= j && j < len(topics[topicPartitions[k].topic]) && topics[topicPartitions[k].topic][j] == topicPartitions[k].partition
+//@   loop pairs: invariant[only_existing] forall k :: 0 <= k && k < len(topicPartitions) ==> haskey(topics, topicPartitions[k].topic) && exists j :: 0 <= j && j < len(topics[topicPartitions[k].topic]) && topics[topicPartitions[k].topic][j] == topicPartitions[k].partition
+//@   loop pairs: invariant tp == topicPartitions[$i] || true
+//@   loop groupmembers: invariant[every_pair] forall t string, j int :: haskey(topics, t) && 0 <= j && j < len(topics[t]) ==> exists k :: 0 <= k && k < len(topicPartitions) && topicPartitions[k].topic == t && topicPartitions[k].partition == topics[t][j]
+//@   loop subscriptions: invariant[every_pair] forall t string, j int :: haskey(topics, t) && 0 <= j && j < len(topics[t]) ==> exists k :: 0 <= k && k < len(topicPartitions) && topicPartitions[k].topic == t && topicPartitions[k].partition == topics[t][j]
+//@   loop pairs: invariant[every_pair] forall t string, j int :: haskey(topics, t) && 0 <= j && j < len(topics[t]) ==> exists k :: 0 <= k && k < len(topicPartitions) && topicPartitions[k].topic == t && topicPartitions[k].partition == topics[t][j]
+//@   callsite BalanceStrategyPlan.Add: requires[an_existing_partition] haskey(topics, $topic) && exists j :: 0 <= j && j < len(topics[$topic]) && topics[$topic][j] == $arg2
+//@   ensures[every_pair] err == nil ==> forall t string, j int :: haskey(topics, t) && 0 <= j && j < len(topics[t]) ==> exists k :: 0 <= k && k < len(topicPartitions) && topicPartitions[k].topic == t && topicPartitions[k].partition == topics[t][j]
+//@   loopname groupmembers: range memberAndMetadata
+//@   loopname subscriptions: range meta.Topics
+//@   loop groupmembers: invariant[members_known] forall k :: 0 <= k && k < len(members) ==> haskey(memberAndMetadata, members[k].memberID) && members[k].topics != nil && allocated(members[k].topics)
+//@   loop groupmembers: invariant len(members) > 0 || forall id string :: !$visited[id]
+//@   loop groupmembers: invariant[member_subs] forall k int, t string :: 0 <= k && k < len(members) && haskey(members[k].topics, t) ==> exists j :: 0 <= j && j < len(memberAndMetadata[members[k].memberID].Topics) && memberAndMetadata[members[k].memberID].Topics[j] == t
+//@   loop subscriptions: invariant[fresh_set] forall k :: 0 <= k && k < len(members) ==> members[k].topics != m.topics
+//@   loop subscriptions: invariant m.topics != nil && m.memberID == memberID && haskey(memberAndMetadata, memberID) && meta == memberAndMetadata[memberID]
+//@   loop subscriptions: invariant forall t string :: haskey(m.topics, t) ==> exists j :: 0 <= j && j < $i && meta.Topics[j] == t
+//@   loop subscriptions: invariant[members_known] forall k :: 0 <= k && k < len(members) ==> haskey(memberAndMetadata, members[k].memberID) && members[k].topics != nil
+//@   loop subscriptions: invariant[member_subs] forall k int, t string :: 0 <= k && k < len(members) && haskey(members[k].topics, t) ==> exists j :: 0 <= j && j < len(memberAndMetadata[members[k].memberID].Topics) && memberAndMetadata[members[k].memberID].Topics[j] == t
+//@   callsite BalanceStrategyPlan.Add: requires[to_a_group_member] haskey(memberAndMetadata, $memberID)
+//@   callsite BalanceStrategyPlan.Add: requires[to_a_subscriber] exists j :: 0 <= j && j < len(memberAndMetadata[$memberID].Topics) && memberAndMetadata[$memberID].Topics[j] == $topic
+//@   callsite BalanceStrategyPlan.Add: requires[the_current_partition] $topic == tp.topic && $arg2 == tp.partition
+//@   callsite BalanceStrategyPlan.Add: effect b.adds == old(b.adds) + 1
+//@   callsite BalanceStrategyPlan.Add: modifies b.adds
+//@   loop pairs: iter_ensures[assigned_exactly_once] b.adds == it(b.adds) + 1
+//@   loop pairs: invariant n == len(members) && n > 0 && i >= 0 && plan != nil && forall mm string :: haskey(plan, mm) ==> plan[mm] != nil && plan[mm] != topics
+//@   loop pairs: invariant[members_known] forall k :: 0 <= k && k < len(members) ==> haskey(memberAndMetadata, members[k].memberID) && members[k].topics != nil
+//@   loop pairs: invariant[member_subs] forall k int, t string :: 0 <= k && k < len(members) && haskey(members[k].topics, t) ==> exists j :: 0 <= j && j < len(memberAndMetadata[members[k].memberID].Topics) && memberAndMetadata[members[k].memberID].Topics[j] == t
+//@   loop 5: invariant i >= 0 && n == len(members) && n > 0 && 0 <= i % n && i % n < n && m == members[i % n] && m.memberID == members[i % n].memberID && m.topics == members[i % n].topics
+//@   loop 5: invariant[m_is_a_member] haskey(memberAndMetadata, m.memberID) && forall t string :: haskey(m.topics, t) ==> exists j :: 0 <= j && j < len(memberAndMetadata[m.memberID].Topics) && memberAndMetadata[m.memberID].Topics[j] == t
+// the cursor i only grows; it stays far below 2^63 for any plan that can be computed (A-mathint)
+//@   math_ints
+//@   nosafety
